@@ -276,7 +276,14 @@ func strHash(s string) uint64 {
 }
 
 // Run executes scenario once under the choice prefix (choice 0 afterwards).
+// PreRun, when set, is called at the start of every execution (the harness restores the library's
+// package-level variables there).
+var PreRun func()
+
 func Run(cfg *Config, prefix []int, scenario func()) *Trace {
+	if PreRun != nil {
+		PreRun()
+	}
 	cfg.defaults()
 	s := &Sched{prefix: prefix, cfg: cfg, endCh: make(chan struct{}, 1)}
 	if cfg.TrackFP {
